@@ -118,31 +118,50 @@ func checkC12(c *Check) {
 	for _, rel := range []string{"ptracer", "runner/unshare"} {
 		for _, fn := range p.PkgFuncs(rel) {
 			if fn.Parent() == nil && isReaper(fn) && fn.Signature.Results().Len() == 0 && fn.Signature.Params().Len() == 1 {
+				// decided on the meaning, not the loop form: with wait4 reporting success or EINTR the reaper never
+				// returns (it keeps waiting); with any other error it returns
 				okLoop := true
-				nExit := 0
-				for _, b := range fn.Blocks {
-					if !inLoop(b) {
-						continue
-					}
-					for k, sblk := range b.Succs {
-						if inLoop(sblk) {
-							continue
+				for _, mode := range []string{"nil", "EINTR", "other"} {
+					returns := 0
+					w := &walker{fn: fn, Inline: -1, MaxVisits: 3}
+					w.Seed = func(w *walker, st *wstate, v ssa.Value) *absVal {
+						bo, ok := v.(*ssa.BinOp)
+						if !ok || (bo.Op != token.EQL && bo.Op != token.NEQ) {
+							return nil
 						}
-						nExit++
-						iff := blockIf(b)
-						okEdge := false
-						if iff != nil {
-							if bo, ok := iff.Cond.(*ssa.BinOp); ok && isNilConst(bo.Y) && bo.X.Type().String() == "error" {
-								okEdge = (bo.Op == token.NEQ && k == 0) || (bo.Op == token.EQL && k == 1)
+						fromWait := func(x ssa.Value) bool {
+							for _, o := range valueOrigins(x) {
+								if strings.HasSuffix(o, ".Wait4") {
+									return true
+								}
 							}
+							return false
 						}
-						if !okEdge {
-							okLoop = false
+						var res bool
+						switch {
+						case isNilConst(bo.Y) && isErrorType(bo.X.Type()) && fromWait(bo.X):
+							res = mode == "nil" // err == nil
+						case fromWait(bo.X):
+							if mi, ok := bo.Y.(*ssa.MakeInterface); ok {
+								if v, isC := constInt(mi.X); isC && v == p.Sys("EINTR") {
+									res = mode == "EINTR" // err == EINTR
+									break
+								}
+							}
+							return nil
+						default:
+							return nil
 						}
+						if bo.Op == token.NEQ {
+							res = !res
+						}
+						return avBool(res)
 					}
-				}
-				if nExit == 0 {
-					okLoop = false
+					w.OnReturn = func(w *walker, st *wstate, ret *ssa.Return, rs []*absVal) { returns++ }
+					w.Run()
+					if (mode == "other") != (returns > 0) {
+						okLoop = false
+					}
 				}
 				c.Cond(okLoop, "1/kill-reap", rel+"."+fn.Name()+":until-error", p.Pos(fn.Pos()), "reaps until wait4 reports no more children", "the reaper can stop while children remain")
 				// ... and it reaps the whole group: the wait target is the negated group id (or -1), with no option that
@@ -361,10 +380,151 @@ func checkContainerReap(c *Check) {
 		c.Fail("1/kill-reap", "container.handleExecve:start", p.Pos(he.Pos()), "Start call not found")
 		return
 	}
-	check(he, start, errEdgeFilter(start))
+	_ = check
+	// Path-sensitive evaluation (constant propagation through flags such as `killed := true`): the launch handler is
+	// walked from its entry with Start assumed successful, following the started-state handler; every blocking select
+	// is enumerated arm by arm. On each return that is neither the transport-lost arm nor a transport error, all four
+	// steps must have happened.
+	var selects []*ssa.Select
+	for _, f := range []*ssa.Function{he, hs} {
+		for _, b := range f.Blocks {
+			for _, in := range b.Instrs {
+				if sl, ok := in.(*ssa.Select); ok && sl.Blocking {
+					dup := false
+					for _, x := range selects {
+						if x == sl {
+							dup = true
+						}
+					}
+					if !dup {
+						selects = append(selects, sl)
+					}
+				}
+			}
+		}
+	}
+	armOf := func(sl *ssa.Select, suffix string) int {
+		for k, st := range sl.States {
+			if strings.HasSuffix(describe(st.Chan), suffix) {
+				return k
+			}
+		}
+		return -1
+	}
+	type armChoice map[*ssa.Select]int
+	var choices []armChoice
+	var gen func(i int, cur armChoice)
+	gen = func(i int, cur armChoice) {
+		if i == len(selects) {
+			c2 := armChoice{}
+			for k, v := range cur {
+				c2[k] = v
+			}
+			choices = append(choices, c2)
+			return
+		}
+		for k := range selects[i].States {
+			cur[selects[i]] = k
+			gen(i+1, cur)
+		}
+	}
+	gen(0, armChoice{})
+	startV, _ := start.(ssa.Value)
+	agg := map[string]bool{}
+	aggPos := map[string]string{}
+	aggStep := map[string]string{}
+	defer func() {
+		var keys []string
+		for k := range agg {
+			keys = append(keys, k)
+		}
+		sort.Strings(keys)
+		for _, k := range keys {
+			c.Cond(agg[k], "1/kill-reap", k, aggPos[k], "this return has passed "+aggStep[k]+" on every path and select arm",
+				"a return after a program was started that has not passed "+aggStep[k]+" on some path: processes or zombies stay behind in the container")
+		}
+	}()
+	roots := []*ssa.Function{he}
 	if hs != he {
-		// (when the started-state handler was inlined into the launch handler the first pass covers it)
-		check(hs, nil, nil)
+		roots = append(roots, hs)
+	}
+	for _, root := range roots {
+		for _, choice := range choices {
+			// only the selects of this root matter
+			relevant := false
+			for sl := range choice {
+				if sl.Parent() == root {
+					relevant = true
+				}
+			}
+			if !relevant && len(choice) > 0 && root == hs {
+				continue
+			}
+			onDone := false
+			gotResult := false
+			for sl, k := range choice {
+				if k == armOf(sl, ".done") {
+					onDone = true
+				}
+				if k == armOf(sl, ".waitPidResult") {
+					gotResult = true
+				}
+			}
+			if onDone {
+				continue // the transport was lost: the init exits, the kernel reaps
+			}
+			w := &walker{fn: root, MaxVisits: 3, MemoStates: true, Inline: -1}
+			w.Seed = func(w *walker, st *wstate, v ssa.Value) *absVal {
+				if ex, ok := v.(*ssa.Extract); ok {
+					if sl, isSel := ex.Tuple.(*ssa.Select); isSel && ex.Index == 0 {
+						if k, ok := choice[sl]; ok {
+							return avInt(int64(k))
+						}
+					}
+					if ex.Tuple == startV && isErrorType(ex.Type()) {
+						return &absVal{k: avNil}
+					}
+				}
+				return nil
+			}
+			w.OnInstr = func(w *walker, st *wstate, in ssa.Instruction) {
+				if in == start.(ssa.Instruction) {
+					st.note("started")
+				}
+				// delegation to the started-state handler: that function is evaluated as a root of its own
+				if ci, ok := in.(ssa.CallInstruction); ok && root != hs {
+					if _, callee := calleeOf(ci); callee == hs {
+						st.note("delegated")
+					}
+				}
+				for _, stp := range steps {
+					if stp.pred(in) {
+						st.note(stp.name)
+					}
+				}
+			}
+			w.OnReturn = func(w *walker, st *wstate, ret *ssa.Return, rs []*absVal) {
+				if root == he && !st.noted("started") {
+					return // a reply sent before anything was started
+				}
+				if st.noted("delegated") {
+					return
+				}
+				if isTransportErrorReturn(ret) && !(len(rs) > 0 && rs[len(rs)-1].k == avNil) {
+					return
+				}
+				for _, stp := range steps {
+					have := st.noted(stp.name) || (stp.name == steps[1].name && gotResult)
+					key := fmt.Sprintf("container.%s:return@%s:%s", root.Name(), p.Pos(ret.Pos()), stp.name)
+					if prev, ok := agg[key]; !ok || prev {
+						agg[key] = have
+						aggPos[key] = p.Pos(ret.Pos())
+						aggStep[key] = stp.name
+					}
+				}
+			}
+			w.Run()
+		}
 	}
 }
 
@@ -468,6 +628,17 @@ func checkDescriptorPairing(c *Check) {
 								return true
 							}
 						}
+						// go f(p[0], …) with f closing that parameter
+						for ai, a := range g.Call.Args {
+							if describe(a) != desc || ai >= len(gf.Params) {
+								continue
+							}
+							for _, c2 := range callInstrs(gf) {
+								if n2, _ := calleeOf(c2); strings.HasSuffix(n2, ".Close") && len(c2.Common().Args) >= 1 && stripConv(c2.Common().Args[0]) == ssa.Value(gf.Params[ai]) {
+									return true
+								}
+							}
+						}
 					}
 				}
 				return false
@@ -477,17 +648,16 @@ func checkDescriptorPairing(c *Check) {
 			// to) hits whatever descriptor got the recycled number in the meantime — another run's socket or pipe
 			maxRel, where := 0, ""
 			w := &walker{fn: fn, Inline: -1}
-			cnt := map[*wstate]int{}
 			w.OnInstr = func(w *walker, st *wstate, in ssa.Instruction) {
 				if _, isDefer := in.(*ssa.Defer); isDefer {
 					return // counted at the return
 				}
 				if isRel(in) {
-					cnt[st]++
+					st.bump("released")
 				}
 			}
 			w.OnReturn = func(w *walker, st *wstate, ret *ssa.Return, rs []*absVal) {
-				n := cnt[st]
+				n := st.count("released")
 				for _, d := range st.defers {
 					if rel(d) {
 						n++
@@ -914,10 +1084,23 @@ func checkDestroyKillsAndReaps(c *Check, rule string) {
 	for _, step := range []string{"Kill", "Wait"} {
 		want := "(os.Process)." + step
 		n := 0
-		isStep := func(in ssa.Instruction) bool {
+		isDirect := func(in ssa.Instruction) bool {
 			if ci, ok := in.(ssa.CallInstruction); ok {
 				if nm, _ := calleeOf(ci); nm == want {
 					return true
+				}
+			}
+			return false
+		}
+		isStep := func(in ssa.Instruction) bool {
+			if isDirect(in) {
+				return true
+			}
+			// a helper of the package whose every path makes the step
+			if ci, ok := in.(ssa.CallInstruction); ok {
+				if _, callee := calleeOf(ci); callee != nil && inModule(callee) && callee.Pkg == ds.Pkg && len(callee.Blocks) > 0 {
+					skips, _ := pathQuery{fn: callee, target: isReturn, stop: isDirect}.find()
+					return !skips && reachesCall(callee, 0, func(c2 ssa.CallInstruction) bool { return isDirect(c2) })
 				}
 			}
 			return false
